@@ -870,22 +870,53 @@ func (s *Sim) refetchQuiescence() {
 
 func (s *Sim) throttleOnRequest(r *Req) {}
 
-// throttleStep is C19.a in quiet windows.
+// throttleStep is C19.a in quiet windows: after a system reset delivered at a
+// quiet moment, and until something else happens, the requests that are
+// certainly governed by that reset's throttle - re-fetches, and access
+// requests no client request accounts for - never exceed the limit.
 func (s *Sim) throttleStep() {
+	s.referenceThrottleStep()
 	n := s.Cfg.Gw.ResetThrottle
 	if n <= 0 || s.quietReset == nil {
 		return
 	}
-	// governed: re-fetch gets and access requests sent after the quiet reset
 	s.mu.Lock()
 	out := 0
 	for _, r := range s.tr.reqs {
-		if r.Seq > s.quietReset.DlvSeq && !r.Delivered && (r.Type == "access" || (r.Type == "get" && r.Rf != 0)) {
+		if r.Seq <= s.quietReset.DlvSeq || r.Delivered {
+			continue
+		}
+		switch {
+		case r.Type == "get" && r.Rf == 2:
 			out++
+		case r.Type == "access" && r.CIdx >= 0:
+			var c *Client
+			for _, x := range s.Clients {
+				if x.CIdx == r.CIdx {
+					c = x
+				}
+			}
+			if c == nil {
+				continue
+			}
+			mine := false
+			for _, o := range c.ReqL {
+				if o.Resp == nil && o.RID != "" {
+					if nm, _ := splitRID(c.expandCID(o.RID)); nm == r.Name {
+						mine = true
+					}
+				}
+			}
+			if !mine {
+				out++
+			}
 		}
 	}
 	s.mu.Unlock()
 	s.stat("oracle.C19.a", 1)
+	if out == n {
+		s.probe("reset_throttle_saturated")
+	}
 	if out > n {
 		s.violate("C19", "a", "reset-throttle-exceeded", "%d requests governed by the reset throttle (limit %d) are outstanding at once", out, n)
 	}
@@ -893,6 +924,31 @@ func (s *Sim) throttleStep() {
 		s.mu.Lock()
 		s.Stats["max_governed_outstanding"] = out
 		s.mu.Unlock()
+	}
+}
+
+// referenceThrottleStep is C19.a for the reference throttle: while one
+// subscribe made at a quiet moment is being served, and nothing else happens,
+// every get request is one issued while following its references.
+func (s *Sim) referenceThrottleStep() {
+	n := s.Cfg.Gw.ReferenceThrottle
+	if n <= 0 || s.quietRoot == nil {
+		return
+	}
+	s.mu.Lock()
+	out := 0
+	for _, r := range s.tr.reqs {
+		if r.Type == "get" && r.Seq > s.quietRoot.Seq && !r.Delivered {
+			out++
+		}
+	}
+	s.mu.Unlock()
+	s.stat("oracle.C19.a_ref", 1)
+	if out == n {
+		s.probe("reference_throttle_saturated")
+	}
+	if out > n {
+		s.violate("C19", "a", "reference-throttle-exceeded", "%d get requests are outstanding while following the references of %s (limit %d)", out, s.quietRoot.Method, n)
 	}
 }
 
@@ -1132,6 +1188,7 @@ func genQueryOutcome(s *Sim, r *Req, draining bool) string {
 func buildThrottleProfile(s *Sim, r *rand.Rand, p *ProfileParams, arm func(string, bool)) {
 	p.Faults["reset"] = true
 	p.Faults["quietreset"] = true
+	p.Faults["quietroot"] = true
 	p.Strict = false
 	p.SvcOps = 6 + r.IntN(12)
 	p.ClientOps = 6 + r.IntN(20)
